@@ -12,9 +12,24 @@ def _layouts():
     return {n: getattr(BMSChannel, n) for n in ("BMS", "BME", "PMS", "PMS_BME", "PMS_5B")}
 
 
+# The library's public description of the five layouts (Writerside/topics/reamber/bms/Channel.md, "Column | 0 | 1 ..."),
+# copied here as fixed data so that the tables in BMSChannel.py are compared with something that is not themselves.
+# (The PMS_5B row of that page lists four channels; the fifth entry of the shipped table is not asserted.)
+DOCUMENTED_LAYOUTS = {
+    "BMS": "11 12 13 14 15 16 17 21 22 23 24 25 26 27",
+    "BME": "16 11 12 13 14 15 18 19 21 22 23 24 25 28 29 26",
+    "PMS": "11 12 13 14 15 22 23 24 25",
+    "PMS_BME": "11 12 13 14 15 18 19 16 17 21 22 23 24 25 28 29 26 27",
+    "PMS_5B": "13 14 15 22",
+}
+
+
 def _layout_fails(name):
     lay = _layouts()[name]
     out = []
+    for col, ch in enumerate(DOCUMENTED_LAYOUTS[name].split()):
+        if lay.get(ch.encode()) != col:
+            out.append(("layout_matches_the_documented_table", f"{name}: channel {ch} is documented as column {col}, the table says {lay.get(ch.encode())!r}"))
     notes = {k: v for k, v in lay.items() if isinstance(v, int)}
     cols = sorted(notes.values())
     if cols != list(range(len(cols))):
